@@ -1,7 +1,7 @@
 """Boundary recorder for HdlcFrameReader: feed chunks, record what read() returns."""
 from __future__ import annotations
 
-from vf.mon import clock, containers
+from vf.mon import clock, containers, steps
 from vf.ref import hdlc_ref
 
 
@@ -78,12 +78,15 @@ def run(cfg, chunks, ctx=None, reader=None, states: set | None = None):
                 pass  # not the object under observation
             containers.used["calls_interleaved_with_another_reader_object"] = containers.used.get("calls_interleaved_with_another_reader_object", 0) + 1
         lent, release = containers.lend(ch, usable)
+        armed = steps.arm(steps.read_budget(len(ch)))
         try:
             frames = reader.read(lent)
-        except Exception as ex:  # recorded, never swallowed silently: C14 decides on it
+        except (Exception, steps.CpuBudgetExceeded) as ex:  # recorded, never swallowed silently: C14 decides on it
             err = ex
             break
         finally:
+            if armed:
+                steps.disarm()
             release()  # the caller's buffer is reused as soon as read() has returned
         poisoned = False
         for f in frames:
